@@ -98,10 +98,15 @@ def install_clock(clock):
   return undo
 
 
+class Desync(Exception):
+  pass
+
+
 class Run:
   """Executes a history and yields per-op observations plus expectations."""
 
-  def __init__(self, case, live_spy=False, live_trace=False, clock=None):
+  def __init__(self, case, live_spy=False, live_trace=False, clock=None, host=None):
+    self.host = host
     from miros.event import return_status
     self.HANDLED = return_status.HANDLED
     self.case = case
@@ -115,7 +120,7 @@ class Run:
       chart.live_trace = live_trace
       chart.register_live_spy_callback(self.spy_out.append)
       chart.register_live_trace_callback(self.trace_out.append)
-    self.real = queued.RealQueued(case, budget=budget, decorate=True, setup=setup)
+    self.real = queued.RealQueued(case, budget=budget, decorate=True, setup=setup, host=host)
     rt = self.real.rt
     real_dispatch = self.real.chart.dispatch
 
@@ -139,19 +144,94 @@ class Run:
   def start(self):
     m = self.model
     m.start(self.case["start"])
+    self._q_at_start = len(m.d.q)
+    m.d.deferred_at_start = list(m.d.deferred)
+    self._rest_at_start = name_of(m.m.cur)
     o = self.real.start()
-    step = ["START"] + spy_lines(o.extra["raw"], self.HANDLED) + [self.reflection()]
+    first = ["START"] + spy_lines([r for r in o.extra["raw"] if r[0] != "step"][:self._start_len(o)],
+                                  self.HANDLED) + [self.reflection_at_start()]
+    if self.host == "ao":
+      return self._start_ao(o, first)
+    step = first
     self.exp_full.extend(step)
     self.exp_trace.append(("start_at", "top", name_of(m.m.cur)))
     self.exp_live_spy.extend(step)
     self.exp_live_trace.append(("start_at", "top", name_of(m.m.cur)))
     return o, [step]
 
+  def _start_len(self, o):
+    """Number of raw entries that belong to start_at itself (before the first dispatch)."""
+    n = 0
+    for r in o.extra["raw"]:
+      if r[0] == "step":
+        break
+      n += 1
+    return n
+
+  def reflection_at_start(self):
+    if self.host != "ao":
+      return self.reflection()
+    # the active object drains the posts made during start_at right away: the reflection line
+    # written by start_at itself still counted them
+    return "<- Queued:(%d) Deferred:(%d)" % (self._q_at_start, len(self.model.d.deferred_at_start))
+
+  def _start_ao(self, o, first):
+    """An active object runs the events posted during start_at as soon as it is started."""
+    m = self.model
+    steps = [first]
+    self.exp_full.extend(first)
+    self.exp_live_spy.extend(first)
+    self.exp_trace.append(("start_at", "top", self._rest_at_start))
+    self.exp_live_trace.append(("start_at", "top", self._rest_at_start))
+    steps.extend(self._drain(o))
+    return o, steps
+
+  def _drain(self, o):
+    """Model: run the queue dry; pair each model step with the real raw segment."""
+    m = self.model
+    results = []
+    while m.d.q:
+      r = m.next_rtc()
+      results.append(r + (self.reflection(),))
+    segs, cur = [], None
+    for r in o.extra["raw"]:
+      if r[0] == "step":
+        cur = []
+        segs.append(cur)
+      elif cur is not None:
+        cur.append(r)
+    if len(segs) != len(results):
+      raise Desync()
+    steps = []
+    for seg, (ev, res, refl) in zip(segs, results):
+      step = spy_lines(seg, self.HANDLED) + [refl]
+      steps.append(step)
+      self.exp_full.extend(step)
+      self.exp_live_spy.extend(step)
+      if res["kind"] == "trans":
+        rec = (ev[1], name_of(res["from"]), name_of(res["to"]))
+        self.exp_trace.append(rec)
+        self.exp_live_trace.append(rec)
+    return steps
+
   def apply(self, op):
     """Returns (observation, list of expected step logs) or None when the op is skipped
     (next_rtc/complete_circuit on an empty queue is not a step)."""
     m = self.model
     k = op[0]
+    if self.host == "ao":
+      if k not in ("post_fifo", "post_lifo", "post_fifo_same", "post_lifo_same"):
+        return None
+      nact = len(m.actlog)
+      m.external(op)
+      o = self.real.apply(op)
+      try:
+        steps = self._drain(o)
+      except Desync:
+        return "desync"
+      if [a[0] for a in o.actlog] != [a[0] for a in m.actlog[nact:]]:
+        return "desync"
+      return o, steps
     if k in ("next_rtc", "complete_circuit") and not m.d.q:
       return None
     nact = len(m.actlog)
